@@ -1132,9 +1132,23 @@ class UnrollLiteral(ast.NodeTransformer):
                             new = Rn().visit(copy.deepcopy(st))
                             ast.fix_missing_locations(new)
                             out.append(new)
+                    # the loop variable keeps its last value when something still reads it after the loop
+                    scope = self._fns[-1] if getattr(self, '_fns', None) else None
+                    inside = {id(n) for n in ast.walk(s)}
+                    if scope is None or any(isinstance(n, ast.Name) and n.id == v and id(n) not in inside for n in ast.walk(scope)):
+                        keep = ast.copy_location(ast.Assign(targets=[ast.Name(id=v, ctx=ast.Store())], value=copy.deepcopy(s.iter.elts[-1])), s)
+                        ast.fix_missing_locations(keep)
+                        out.append(keep)
                     continue
             out.append(s)
         return out
+
+    def visit_FunctionDef(self, node):
+        self._fns = getattr(self, '_fns', []) + [node]
+        try:
+            return self.generic_visit(node)
+        finally:
+            self._fns = self._fns[:-1]
 
     def generic_visit(self, node):
         super().generic_visit(node)
@@ -1157,6 +1171,9 @@ class UnrollComp(ast.NodeTransformer):
     def _items(self, it):
         if isinstance(it, (ast.Tuple, ast.List)) and 1 <= len(it.elts) <= 4 and all(self._simple(x) for x in it.elts):
             return [[x] for x in it.elts]
+        if isinstance(it, (ast.Tuple, ast.List)) and 1 <= len(it.elts) <= 4 and all(isinstance(r, (ast.Tuple, ast.List)) and 1 <= len(r.elts) <= 4 and all(self._simple(x) for x in r.elts) for r in it.elts) \
+                and len({len(r.elts) for r in it.elts}) == 1 and len(it.elts[0].elts) > 1:
+            return [list(r.elts) for r in it.elts]          # rows written out: ((a, b), (c, d))
         if isinstance(it, ast.Call) and isinstance(it.func, ast.Name) and it.func.id == 'zip' and not it.keywords and it.args \
                 and all(isinstance(a, (ast.Tuple, ast.List)) and 1 <= len(a.elts) <= 4 and all(self._simple(x) for x in a.elts) for a in it.args) \
                 and len({len(a.elts) for a in it.args}) == 1:
